@@ -5,6 +5,7 @@
 package main
 
 import (
+	"encoding/json"
 	"fmt"
 	"os"
 	"sort"
@@ -48,4 +49,24 @@ func main() {
 		fmt.Fprintln(os.Stderr, "c16:", err)
 		os.Exit(3)
 	}
+}
+
+// writeStats prints the exercise counters of a driver run and appends them to file (if given).
+func writeStats(file string, st interface{}) error {
+	b, err := json.Marshal(st)
+	if err != nil {
+		return err
+	}
+	if file != "" {
+		f, err := os.OpenFile(file, os.O_APPEND|os.O_CREATE|os.O_WRONLY, 0o644)
+		if err != nil {
+			return err
+		}
+		defer f.Close()
+		if _, err := f.Write(append(b, '\n')); err != nil {
+			return err
+		}
+	}
+	fmt.Println(string(b))
+	return nil
 }
